@@ -514,6 +514,8 @@ def apply_contract(I, c, ex, args, kwargs):
                 l2 = dict(loc)
                 l2['raised'] = e
                 P.assume(I.truth(I.eval_spec(ens, l2, G, old, ex.cls)))
+            for ev in getattr(c, 'raise_emits_', {}).get(rname, []):
+                P.event(*ev)
             P.event('raise', cls.__name__)
             raise pyvc.Raised(e)
     if not c.no_other_raises:
